@@ -40,6 +40,11 @@ def statements():
     add('SELECT DISTINCT a FROM t', 'distinct')
     add('SELECT DISTINCT s, b FROM t', 'distinct-2')
     add('SELECT COUNT(*), SUM(b), MIN(s), MAX(a), COUNT(DISTINCT a) FROM t', 'global-agg')
+    add('SELECT MIN(a), MAX(a), MIN(b), MAX(b), MIN(s), MAX(s), SUM(a), AVG(b), COUNT(b) FROM t', 'global-minmax')
+    add('SELECT MIN(b), MAX(b) FROM t WHERE a = 2', 'global-minmax-filter')
+    add('SELECT a, MIN(b) AS mn, MAX(b) AS mx, COUNT(DISTINCT s) AS ds FROM t GROUP BY a', 'group-minmax-distinct')
+    add('SELECT s, MIN(a) AS mn, MAX(a) AS mx, SUM(b) AS sb, COUNT(DISTINCT b) AS db FROM t GROUP BY s', 'group-str-minmax-distinct')
+    add('SELECT a, MIN(b) AS mn, MAX(s) AS mx FROM t GROUP BY a', 'group-minmax')
     add('SELECT a, COUNT(*) AS c, SUM(b) AS sb FROM t GROUP BY a', 'group')
     add('SELECT s, MIN(b) AS mn, MAX(b) AS mx, AVG(b) AS av FROM t GROUP BY s', 'group-str')
     add('SELECT a, COUNT(*) AS c FROM t GROUP BY a HAVING COUNT(*) > 1', 'having')
@@ -241,6 +246,12 @@ def run(rep):
     T12 = [[r[0], r[1], r[2]] for r in T6] + [[(r[0] or 0) + 3, (r[1] or 0) + 1, (r[2] or 'n') + 'q'] for r in T6]
     for tb in ([2] * 6, [1] * 12, [5, 1, 1, 1, 1, 1, 1, 1]):
         tasks.append(('cfg', (rep.prop, T12, U4, [tb], [[1, 1, 1, 1], [4]], threads, [None, 0], st)))
+    # every rotation of the row order: each alignment of the NULLs with the per-thread chunks of consecutive batches
+    agg = [x for x in st if x['tag'].startswith(('global', 'group', 'having', 'distinct', 'join-agg'))]
+    for r in range(1, 12):
+        rot = T12[r:] + T12[:r]
+        for tb in ([1] * 12, [2] * 6) if (quick and r % 2) or not quick else ([1] * 12,):
+            tasks.append(('cfg', (rep.prop, rot, U4, [tb], [[4]], threads, [0], agg)))
     if not quick:
         # production gate (>= 1000 rows) opens without the hook
         big = [[r[0], r[1], r[2]] for r in T6] * 250
@@ -256,7 +267,7 @@ def run(rep):
         for th in ([3] if quick else [2, 4]):
             for i in range(0, len(st), 6):
                 tasks.append(('sched', (rep.prop, T6, U4, tb, ub, th, bound, cap, st[i:i + 6])))
-    rep.rule = ('(A) tables t (6 rows: NULLs, duplicates) and u (4 rows): every composition of t into 1..%d batches x every composition of u into 1..%d batches, plus 12 rows in 6/12/8 batches%s; '
+    rep.rule = ('(A) tables t (6 rows: NULLs, duplicates) and u (4 rows): every composition of t into 1..%d batches x every composition of u into 1..%d batches, plus 12 rows in 6/12/8 batches and, for the aggregate statements, every rotation of those 12 rows over 12 and 6 batches%s; '
                 'x RAYON_NUM_THREADS {1,2,3,16} x partition gate {production, open (hook H3)}; %d statements (LIMIT/OFFSET, top-k, sort, UNION [ALL], INTERSECT/EXCEPT, DISTINCT, grouped/global aggregates, '
                 'inner/left/right/full/semi/anti joins, scalar subquery, windows, CTE); oracle: answer (multiset, or sequence up to ties under ORDER BY, LIMIT slices up to ties) equals the 1-batch/1-thread answer and never fails. '
                 '(B) every declared partition of every operator of every physical plan is executed once on a fresh plan and must not fail; the root partitions concatenated equal the answer. '
